@@ -1,7 +1,7 @@
 """C07 - sort and repair tools reorder without changing content; result loads (structural clauses)."""
 from __future__ import annotations
 
-from . import scopes, lib_mem, lib_kind
+from . import scopes, lib_mem, lib_kind, lib_kind4
 from . import lib_order, lib_schema, lib_gate, lib_module, lib_py, lib_sweep
 
 LEVEL = "other"
@@ -35,5 +35,6 @@ def run(ctx):
     lib_py.kw_forward(ctx, py, mods=("tables",), only=ps)
     lib_py.unused_params(ctx, py, mods=("tables",), only=ps)
     lib_kind.py_lints(ctx, py, mods=("tables",), only=ps)
+    lib_kind4.full_sort(ctx, py)
     lib_py.ll_positional(ctx, py, P, only=ps)
     lib_mem.c_lints(ctx, ctx.program(), scopes.lib_scope("C07"))
